@@ -116,7 +116,12 @@ def run(rep):
         el = ('elem', stx[2], stx[1])
         # a selection that only removes builtin members is harmless (a builtin is never an array); anything else looks at a part of the members
         only_builtin_filter = all(c_[0] == 'not' and 'Binding::BuiltIn' in repr(c_) and repr(c_).count("'is'") <= 2 for c_ in stx[4])
-        ok_src = stx[1] == want_src and stx[3] == el and not stx[5] and only_builtin_filter
+        # the members of a struct of the module: of this very element, or - when the items are rendered from records built in an earlier pass over
+        # module.types - of the element of that pass (the record then belongs to that struct by construction)
+        src_ = stx[1]
+        is_members = src_ == want_src or (src_[0] == 'vf' and src_[2] == 'naga::TypeInner::Struct' and src_[3] == 'members' and src_[1][0] == 'f' and src_[1][2] == 'inner' and
+                                          src_[1][1][0] == 'tf' and src_[1][1][2] == 1 and src_[1][1][1][0] == 'elem' and src_[1][1][1][2] == st[1])
+        ok_src = is_members and stx[3] == el and not stx[5] and only_builtin_filter
         mt = ('f', ('idx', ('f', st[1][1], 'types'), ('f', el, 'ty')), 'inner')
         got = {}
         for label, innerv in (('array<T>', V(TI + 'Array', base='B', size=V('naga::ArraySize::Dynamic'), stride=16)),
